@@ -1,5 +1,6 @@
 #![allow(dead_code)]
 mod codec_cases;
+mod fq;
 mod pipes;
 mod sock;
 mod util;
@@ -65,6 +66,7 @@ fn run_case(kind: &str, args: &[&str]) -> String {
         "greet" => codec_cases::greet(args),
         "ready" => codec_cases::ready(args),
         "sock" => sock::run(args),
+        "fq" => fq::run(args),
         "compat" => codec_cases::compat(args),
         "stypename" => codec_cases::stypename(args),
         _ => format!("unknown-kind {}", kind),
